@@ -33,6 +33,8 @@ struct Plan {
 	bool stdin_pipe = false; // stdin is a pipe (not seekable) rather than a redirected file
 	bool dash_o = false;
 	int stack_shift = 0;
+	int argv0 = 0;           // index into the list of program names (argv[0]) the compiler may be started under
+	int alt_name = 0;        // 0: input named as in the workload; else the same bytes under another path name
 	// allocator schedule
 	int placement = 0;       // 0 ascending, 1 descending
 	int gapmax = 0;          // random gap in [0,gapmax], multiple of 16
